@@ -71,6 +71,12 @@ func (b *backoff) next(attempt int) time.Duration {
 	durf := minf * math.Pow(1.5, float64(attempt))
 	durf = durf + rand.Float64()*minf
 
+	// compare as float: for large attempt counts durf exceeds the int64 range
+	// and the conversion below would overflow into a negative (i.e. no) delay
+	if durf > float64(b.maxDelay) {
+		return b.maxDelay
+	}
+
 	delay := time.Duration(durf)
 
 	if delay > b.maxDelay {
